@@ -9,7 +9,11 @@ use ahash::AHashSet as HashSet;
 use parking_lot::Mutex;
 #[cfg(grevm_verif)]
 type Mutex<T> = crate::verif::sync::Mutex<T, { crate::verif::group::DEP }>;
-use std::sync::atomic::{AtomicUsize, Ordering};
+#[cfg(grevm_verif)]
+use crate::verif::sync::AtomicUsize;
+#[cfg(not(grevm_verif))]
+use std::sync::atomic::AtomicUsize;
+use std::sync::atomic::Ordering;
 
 struct DependentState {
     onboard: bool,
